@@ -89,6 +89,10 @@ def diagram_case(ctx, k, rng):
         opts["plot_only"] = sorted(set(int(x) for x in rng.integers(0, nd, int(rng.integers(1, nd + 1)))))
         if opts["plot_only"] == [0] and rng.random() < 0.5:
             opts["plot_only"] = [nd - 1]
+        if rng.random() < 0.4:
+            # positions counted from the end ("the last diagram"): the same selection, written with negative indices
+            opts["plot_only"] = [(i - nd) if rng.random() < 0.6 else i for i in opts["plot_only"]]
+            ctx.note("plot_only with negative positions")
     if rng.random() < 0.4:
         opts["lifetime"] = True
     if rng.random() < 0.3:
@@ -120,7 +124,7 @@ def diagram_case(ctx, k, rng):
         if name in opts:
             opts[name] = vforms.npflag(rng, opts[name])
     arg = given[0] if single else given
-    shown_idx = opts.get("plot_only") or list(range(nd))
+    shown_idx = [i % nd for i in opts["plot_only"]] if opts.get("plot_only") else list(range(nd))
     if single and "plot_only" in opts:
         del opts["plot_only"]; shown_idx = [0]
     shown = [dgms[i] for i in shown_idx]
